@@ -16,6 +16,15 @@ pub struct SimNode {
     pub cfg: Config,
     pub store: MemStorage,
     pub sstore: SimStorage,
+    /// the durable image of the storage: what a crash leaves behind (a separate MemStorage fed
+    /// with the same operations, later for asynchronously persisted Readies)
+    pub durable: MemStorage,
+    /// every operation applied to `durable`, in order (a crash rebuilds the live store from it)
+    pub durable_ops: Vec<StoreOp>,
+    /// Readies written to the live store (advance_append_async) and not yet fsynced
+    pub unsynced: VecDeque<ReadyView>,
+    pub init_cs: (Vec<u64>, Vec<u64>),
+    pub sim_snap: bool,
     pub driver: Option<Driver>,
     /// applied index of the simulated state machine (durable together with the store)
     pub applied: u64,
@@ -25,6 +34,56 @@ pub struct SimNode {
     pub async_pending: VecDeque<(u64, Vec<Message>)>,
     /// committed entries handed out and not yet applied
     pub to_apply: VecDeque<Entry>,
+}
+
+/// A storage write of the simulated application.
+#[derive(Clone)]
+pub enum StoreOp {
+    Snapshot(Snapshot),
+    Append(Vec<Entry>),
+    HardState(u64, u64, u64),
+    Commit(u64),
+    ConfState(ConfState),
+    Compact(u64),
+}
+
+pub fn apply_op(st: &MemStorage, op: &StoreOp) {
+    let mut w = st.wl();
+    match op {
+        StoreOp::Snapshot(s) => {
+            let _ = w.apply_snapshot(s.clone());
+        }
+        StoreOp::Append(e) => {
+            let _ = catch(|| w.append(e));
+        }
+        StoreOp::HardState(t, v, c) => {
+            let hs = w.mut_hard_state();
+            hs.term = *t;
+            hs.vote = *v;
+            hs.commit = *c;
+        }
+        StoreOp::Commit(c) => {
+            w.mut_hard_state().commit = *c;
+        }
+        StoreOp::ConfState(cs) => w.set_conf_state(cs.clone()),
+        StoreOp::Compact(i) => {
+            let _ = catch(|| w.compact(*i));
+        }
+    }
+}
+
+pub fn ready_ops(rv: &ReadyView) -> Vec<StoreOp> {
+    let mut v = vec![];
+    if rv.snapshot.get_metadata().index != 0 {
+        v.push(StoreOp::Snapshot(rv.snapshot.clone()));
+    }
+    if !rv.entries.is_empty() {
+        v.push(StoreOp::Append(rv.entries.clone()));
+    }
+    if let Some((t, vv, c)) = rv.hs {
+        v.push(StoreOp::HardState(t, vv, c));
+    }
+    v
 }
 
 pub struct Recorder {
@@ -37,6 +96,11 @@ pub struct Recorder {
 }
 
 impl Recorder {
+    /// A recorder that writes no case files (monitor mode): only counts calls and panics.
+    pub fn disabled() -> Recorder {
+        Recorder { shards: vec![], rr: 0, calls: 0, panics: Default::default(), hist: Default::default(), enabled: false }
+    }
+
     pub fn put(&mut self, o: &CallOutcome, meta: &str) {
         self.calls += 1;
         if let Some(m) = &o.panicked {
@@ -67,12 +131,41 @@ pub struct Sim {
     pub rng: Rng,
     pub rec: Recorder,
     pub next_payload: u64,
+    /// messages delivered earlier (bounded sample): re-delivered much later as stale duplicates
+    pub archive: Vec<Message>,
     pub max_log: u64,
     pub trace: Vec<String>,
     pub keep_trace: bool,
     pub trace_tail: usize,
     pub run_id: u64,
     pub trace_len: u64,
+    /// attached runtime monitors (None: the simulator behaves exactly as without this field)
+    pub mon: Option<Box<crate::monitor::MonitorSet>>,
+    /// set by a monitor violation: the run stops
+    pub halted: bool,
+    /// no "PANIC on node" print when a call panics (monitor mode)
+    pub quiet: bool,
+    /// monitor-only: mixes ill-addressed steps (local message types, responses of unknown
+    /// peers) into the random events; consumes random numbers only when set
+    pub extra_steps: bool,
+    /// adversarial runs (pointwise tie (A) only, no P traces, no monitors): hand-made peer
+    /// messages with fields chosen around the receiver's state are stepped as well
+    pub adversarial: bool,
+    /// monitor-only: forces pre_vote and check_quorum on, no learners, priority 0, >= 3 voters
+    pub force_prevote_cq: bool,
+    /// monitor-only: every node's Storage::snapshot is the application's real snapshot (never
+    /// MemStorage::snapshot, which fabricates an index it does not have)
+    pub force_sim_snap: bool,
+    /// monitor-only: the application never calls campaign() on a node that is not a voter of
+    /// its own configuration
+    pub voter_campaign_only: bool,
+    /// no membership change is ever proposed (P-level traces then cover the whole run)
+    pub fixed_conf: bool,
+    /// run profile (pointwise tie coverage): 0 none, 1 flow control, 2 transfer + membership,
+    /// 3 snapshots, 4 reads: a quarter of the random events come from the profile's own list
+    pub focus: u8,
+    /// message of the most recent panic of any node
+    pub last_panic: Option<String>,
     pub pt: crate::ptrace::PTrace,
 }
 
@@ -108,7 +201,25 @@ pub fn call_kind(c: &Call) -> &'static str {
 
 impl Sim {
     pub fn new(seed: u64, rec: Recorder) -> Sim {
-        Sim { nodes: vec![], net: vec![], rng: Rng::new(seed), rec, next_payload: 1, max_log: 12, trace: vec![], keep_trace: false, trace_tail: 60, run_id: seed, trace_len: 0, pt: Default::default() }
+        Sim { nodes: vec![], net: vec![], rng: Rng::new(seed), rec, next_payload: 1, archive: vec![], max_log: 12, trace: vec![], keep_trace: false, trace_tail: 60, run_id: seed, trace_len: 0, mon: None, halted: false, quiet: false, extra_steps: false, adversarial: false, force_prevote_cq: false, force_sim_snap: false, voter_campaign_only: false, fixed_conf: false, focus: 0, last_panic: None, pt: Default::default() }
+    }
+
+    /// A cluster of the given shape with the given per-node configuration (scripted scenarios).
+    pub fn boot_fixed(&mut self, voters: &[u64], learners: &[u64], mk: impl Fn(u64) -> Config) {
+        for id in voters.iter().chain(learners.iter()) {
+            let cfg = mk(*id);
+            let store = MemStorage::new_with_conf_state((voters.to_vec(), learners.to_vec()));
+            let sstore = SimStorage::new(store.clone(), true);
+            let durable = MemStorage::new_with_conf_state((voters.to_vec(), learners.to_vec()));
+            self.nodes.push(SimNode { id: *id, cfg, store, sstore, durable, durable_ops: vec![], unsynced: VecDeque::new(),
+                init_cs: (voters.to_vec(), learners.to_vec()), sim_snap: true, driver: None, applied: 0, reported: 0, async_pending: VecDeque::new(), to_apply: VecDeque::new() });
+        }
+        for i in 0..self.nodes.len() {
+            self.start(i);
+        }
+        self.pt.inc = voters.to_vec();
+        self.pt.enabled = true;
+        self.with_mon(|m, s| m.on_boot(s));
     }
 
     /// Random cluster shape and per-node configuration.
@@ -123,7 +234,14 @@ impl Sim {
         let check_quorum = rng.chance(1, 2);
         let batch = rng.chance(1, 4);
         let lease = check_quorum && rng.chance(1, 4);
-        let sim_snap = !rng.chance(1, 8);
+        let sim_snap = !rng.chance(1, 8) || self.force_sim_snap;
+        let force = self.force_prevote_cq;
+        let (voters, learners, pre_vote, check_quorum, lease) = if force {
+            let nv = if nv < 3 { 3 } else { nv };
+            ((1..=nv).collect::<Vec<u64>>(), Vec::<u64>::new(), true, true, false)
+        } else {
+            (voters, learners, pre_vote, check_quorum, lease)
+        };
         for id in voters.iter().chain(learners.iter()) {
             let mut cfg = Config::new(*id);
             cfg.election_tick = 5 + rng.below(4) as usize;
@@ -141,17 +259,45 @@ impl Sim {
             }
             cfg.max_committed_size_per_ready = *rng.pick(&[u64::MAX, u64::MAX, 30, 100]);
             cfg.max_apply_unpersisted_log_limit = *rng.pick(&[0u64, 0, 1, 3]);
-            cfg.priority = if rng.chance(1, 6) { rng.below(3) as i64 } else { 0 };
+            // priorities are only set later through the SetPriority knob: at term 0 a priority-based
+            // pre-vote rejection hits the known finding F9 (term-0 response), which would mask everything else
+            cfg.priority = if rng.chance(1, 6) { 0 * rng.below(3) as i64 } else { 0 };
             cfg.disable_proposal_forwarding = rng.chance(1, 8);
+            if force {
+                cfg.priority = 0;
+            }
             let store = MemStorage::new_with_conf_state((voters.clone(), learners.clone()));
             let sstore = SimStorage::new(store.clone(), sim_snap);
-            self.nodes.push(SimNode { id: *id, cfg, store, sstore, driver: None, applied: 0, reported: 0, async_pending: VecDeque::new(), to_apply: VecDeque::new() });
+            let durable = MemStorage::new_with_conf_state((voters.clone(), learners.clone()));
+            self.nodes.push(SimNode { id: *id, cfg, store, sstore, durable, durable_ops: vec![], unsynced: VecDeque::new(),
+                init_cs: (voters.clone(), learners.clone()), sim_snap, driver: None, applied: 0, reported: 0, async_pending: VecDeque::new(), to_apply: VecDeque::new() });
         }
         for i in 0..self.nodes.len() {
             self.start(i);
         }
         self.pt.inc = voters.clone();
         self.pt.enabled = true;
+        self.with_mon(|m, s| m.on_boot(s));
+    }
+
+    /// Runs `f` on the attached monitor set (if any) with read access to the simulator.
+    pub fn with_mon(&mut self, f: impl FnOnce(&mut crate::monitor::MonitorSet, &Sim)) {
+        if let Some(mut m) = self.mon.take() {
+            f(&mut m, self);
+            if m.wants_halt() && !self.halted {
+                self.halted = true;
+                m.halt_at = self.trace.len();
+                m.fail_state = crate::monitor::describe(self);
+            }
+            self.mon = Some(m);
+        }
+    }
+
+    pub(crate) fn note(&mut self, f: impl FnOnce() -> String) {
+        if self.mon.is_some() && self.keep_trace {
+            let l = f();
+            self.trace.push(l);
+        }
     }
 
     pub fn start(&mut self, i: usize) {
@@ -161,7 +307,49 @@ impl Sim {
         raft::verif_raft::set_timeout_seed(Some(self.rng.next() | 1));
         n.sstore.set_applied(n.applied);
         let r = catch(|| RawNode::new(&cfg, n.sstore.clone(), &logger()));
-        let _ = raft::verif_raft::take_draws();
+        let draws: Vec<u64> = raft::verif_raft::take_draws().into_iter().map(|x| x as u64).collect();
+        if self.rec.enabled {
+            let (case_line, impl_line) = new_case(&cfg, &n.sstore, &draws, &r);
+            let o = CallOutcome { case_line, impl_line, panicked: None, ret_code: 0, ready: None, light: None, conf_state: None, flag: false };
+            let meta = format!("new {} {}", n.applied, match &r { Ok(Ok(_)) => "ok", Ok(Err(_)) => "err", Err(_) => "panic" });
+            self.rec.put(&o, &meta);
+            // a second, perturbed configuration over the same storage (mostly rejected or panicking;
+            // not used by the simulation itself): exercises Config::validate and the start-up checks
+            if self.rng.chance(1, 2) {
+                let mut c2 = cfg.clone();
+                match self.rng.below(12) {
+                    0 => c2.id = 0,
+                    1 => c2.heartbeat_tick = 0,
+                    2 => c2.election_tick = c2.heartbeat_tick,
+                    3 => c2.min_election_tick = c2.election_tick.saturating_sub(1).max(1),
+                    4 => {
+                        c2.min_election_tick = c2.election_tick + 2;
+                        c2.max_election_tick = c2.election_tick + self.rng.below(4) as usize;
+                    }
+                    5 => c2.max_inflight_msgs = 0,
+                    6 => {
+                        c2.read_only_option = raft::ReadOnlyOption::LeaseBased;
+                        c2.check_quorum = false;
+                    }
+                    7 => c2.max_uncommitted_size = c2.max_size_per_msg.saturating_sub(1),
+                    8 => c2.applied = self.rng.below(12),
+                    9 => c2.applied = n.applied + 1 + self.rng.below(3),
+                    10 => {
+                        c2.min_election_tick = c2.election_tick + self.rng.below(3) as usize;
+                        c2.max_election_tick = c2.min_election_tick + 1 + self.rng.below(5) as usize;
+                    }
+                    _ => c2.max_apply_unpersisted_log_limit = self.rng.below(4),
+                }
+                raft::verif_raft::set_timeout_seed(Some(self.rng.next() | 1));
+                let st2 = n.sstore.clone();
+                let r2 = catch(|| RawNode::new(&c2, st2, &logger()));
+                let d2: Vec<u64> = raft::verif_raft::take_draws().into_iter().map(|x| x as u64).collect();
+                let (case_line, impl_line) = new_case(&c2, &n.sstore, &d2, &r2);
+                let o = CallOutcome { case_line, impl_line, panicked: None, ret_code: 0, ready: None, light: None, conf_state: None, flag: false };
+                let meta = format!("new-perturbed {} {}", c2.applied, match &r2 { Ok(Ok(_)) => "ok", Ok(Err(_)) => "err", Err(_) => "panic" });
+                self.rec.put(&o, &meta);
+            }
+        }
         match r {
             Ok(Ok(node)) => {
                 let (t, v) = (node.raft.term, node.raft.vote);
@@ -171,21 +359,46 @@ impl Sim {
                 self.pt.restart(id, t, v);
                 n.async_pending.clear();
                 n.to_apply.clear();
+                if self.pt.enabled {
+                    let lg = &n.driver.as_ref().unwrap().node.raft.raft_log;
+                    let (first, ents, cm) = (lg.first_index(), lg.all_entries(), lg.committed);
+                    self.pt.observe(id, first, &ents, cm, &[]);
+                }
+                self.note(|| format!("{} (re)start", id));
+                self.with_mon(|m, s| m.on_restart(s, i));
             }
-            Ok(Err(_)) | Err(_) => {
+            Ok(Err(e)) => {
                 *self.rec.panics.entry("RawNode::new failed".to_string()).or_insert(0) += 1;
+                let msg = format!("RawNode::new failed: {:?}", e);
+                self.with_mon(|m, s| m.on_start_failed(s, i, &msg));
+            }
+            Err(e) => {
+                *self.rec.panics.entry("RawNode::new failed".to_string()).or_insert(0) += 1;
+                let msg = format!("RawNode::new failed: {}", e);
+                self.with_mon(|m, s| m.on_start_failed(s, i, &msg));
             }
         }
     }
 
-    fn idx_of(&self, id: u64) -> Option<usize> {
+    pub(crate) fn idx_of(&self, id: u64) -> Option<usize> {
         self.nodes.iter().position(|n| n.id == id)
     }
 
     pub fn call(&mut self, i: usize, c: Call) -> Option<CallOutcome> {
+        if self.halted {
+            return None;
+        }
+        let pre = match self.mon.as_mut() {
+            Some(m) => match self.nodes[i].driver.as_ref() {
+                Some(d) => Some(m.pre(&d.node, &c)),
+                None => None,
+            },
+            None => None,
+        };
         let d = self.nodes[i].driver.as_mut()?;
         let role = d.node.raft.state;
         let ppre = (d.node.raft.term, d.node.raft.vote, d.node.raft.state);
+        let msgs_before = d.node.raft.msgs.len();
         let o = d.exec(&c);
         let ppost = (d.node.raft.term, d.node.raft.vote, d.node.raft.state);
         let gfrom = match &c {
@@ -205,6 +418,22 @@ impl Sim {
                     self.pt.ready_hs(nid);
                 }
             }
+            if self.pt.enabled {
+                let d = self.nodes[i].driver.as_ref().unwrap();
+                let lg = &d.node.raft.raft_log;
+                let acks: Vec<u64> = if d.node.raft.msgs.len() >= msgs_before {
+                    d.node.raft.msgs[msgs_before..]
+                        .iter()
+                        .filter(|m| m.get_msg_type() == MessageType::MsgAppendResponse && !m.reject && m.index >= 1)
+                        .map(|m| m.index)
+                        .collect()
+                } else {
+                    vec![]
+                };
+                let first = lg.first_index();
+                let ents = lg.all_entries();
+                self.pt.observe(nid, first, &ents, lg.committed, &acks);
+            }
         } else {
             self.pt.crash(nid);
         }
@@ -219,7 +448,7 @@ impl Sim {
         self.rec.put(&o, &meta);
         if let Some(p) = &o.panicked {
             // a panicked node is dead: the application would crash
-            if self.keep_trace {
+            if self.keep_trace && !self.quiet {
                 let n = self.trace.len();
                 println!("PANIC on node {}: {}", self.nodes[i].id, p);
                 for l in &self.trace[n.saturating_sub(self.trace_tail)..] {
@@ -227,12 +456,29 @@ impl Sim {
                 }
             }
             self.nodes[i].driver = None;
+            self.last_panic = Some(p.clone());
+            // the process is gone: exactly as in a crash, writes that were not fsynced are lost
+            self.nodes[i].async_pending.clear();
+            self.nodes[i].to_apply.clear();
+            self.lose_unsynced(i);
+            if let Some(pre) = pre {
+                self.with_mon(|m, s| m.after(s, i, &c, &o, pre));
+                self.with_mon(|m, s| m.on_crash(s, i));
+            }
             return None;
+        }
+        if let Some(pre) = pre {
+            self.with_mon(|m, s| m.after(s, i, &c, &o, pre));
         }
         Some(o)
     }
 
-    fn send(&mut self, msgs: Vec<Message>) {
+    pub(crate) fn send(&mut self, i: usize, msgs: Vec<Message>) {
+        if self.mon.is_some() {
+            for m in &msgs {
+                self.with_mon(|mm, s| mm.on_send(s, i, m));
+            }
+        }
         for m in msgs {
             self.pt.send(&m);
             if self.net.len() < 400 {
@@ -244,15 +490,22 @@ impl Sim {
     /// Applies handed-out committed entries to the simulated state machine: conf
     /// changes go through apply_conf_change.  `report` also tells raft (advance_apply_to);
     /// that is not done between ready() and advance*().
-    fn apply_entries(&mut self, i: usize, upto_all: bool, report: bool) {
+    pub(crate) fn apply_entries(&mut self, i: usize, upto_all: bool, report: bool) {
         let limit = if upto_all { usize::MAX } else { 1 + self.rng.below(3) as usize };
         let mut k = 0;
         while k < limit {
-            let e = match self.nodes[i].to_apply.pop_front() {
-                Some(e) => e,
-                None => break,
-            };
+            // the application applies an entry only once the commit index covering it is durable
+            // (the crate's documentation: persist the commit index with or before applying)
+            let dcommit = self.nodes[i].durable.initial_state().unwrap().hard_state.commit;
+            match self.nodes[i].to_apply.front() {
+                Some(e) if e.index <= dcommit => {}
+                _ => break,
+            }
+            let e = self.nodes[i].to_apply.pop_front().unwrap();
             k += 1;
+            if self.mon.is_some() {
+                self.with_mon(|m, s| m.on_apply(s, i, &e));
+            }
             let cc = match e.get_entry_type() {
                 EntryType::EntryNormal => None,
                 EntryType::EntryConfChange => {
@@ -267,7 +520,7 @@ impl Sim {
             if let Some(cc) = cc {
                 if let Some(o) = self.call(i, Call::ApplyConfChange(cc)) {
                     if let Some(cs) = o.conf_state {
-                        self.nodes[i].store.wl().set_conf_state(cs);
+                        self.store_op(i, StoreOp::ConfState(cs), true);
                     }
                 } else {
                     return;
@@ -283,7 +536,7 @@ impl Sim {
         }
     }
 
-    fn report_applied(&mut self, i: usize) {
+    pub(crate) fn report_applied(&mut self, i: usize) {
         if self.nodes[i].driver.is_some() && self.nodes[i].applied > self.nodes[i].reported {
             let a = self.nodes[i].applied;
             self.nodes[i].reported = a;
@@ -291,29 +544,94 @@ impl Sim {
         }
     }
 
-    fn write_ready(&mut self, i: usize, rv: &ReadyView) {
+    /// Applies an operation to the live store and (always for application-level state) to the durable one.
+    fn store_op(&mut self, i: usize, op: StoreOp, durable_too: bool) {
+        apply_op(&self.nodes[i].store, &op);
+        if durable_too {
+            apply_op(&self.nodes[i].durable, &op);
+            self.nodes[i].durable_ops.push(op);
+        }
+    }
+
+    /// Writes a Ready to the live store; `sync` also makes it durable at once, otherwise it is
+    /// fsynced later (`fsync_one`) and a crash before that loses it.
+    pub(crate) fn write_ready(&mut self, i: usize, rv: &ReadyView, sync: bool) {
+        for op in ready_ops(rv) {
+            apply_op(&self.nodes[i].store, &op);
+        }
         let n = &mut self.nodes[i];
-        let mut st = n.store.wl();
         if rv.snapshot.get_metadata().index != 0 {
-            let _ = st.apply_snapshot(rv.snapshot.clone());
             n.applied = rv.snapshot.get_metadata().index;
             n.sstore.set_applied(n.applied);
             n.to_apply.clear();
         }
-        if !rv.entries.is_empty() {
-            let _ = catch(|| st.append(&rv.entries));
+        if self.mon.is_some() {
+            self.with_mon(|m, s| m.on_write(s, i, rv));
         }
-        if let Some((t, v, c)) = rv.hs {
-            let hs = st.mut_hard_state();
-            hs.term = t;
-            hs.vote = v;
-            hs.commit = c;
+        self.nodes[i].unsynced.push_back(rv.clone());
+        if sync {
+            while !self.nodes[i].unsynced.is_empty() {
+                self.fsync_one(i);
+            }
+        }
+    }
+
+    /// The oldest written Ready becomes durable.
+    pub(crate) fn fsync_one(&mut self, i: usize) {
+        let rv = match self.nodes[i].unsynced.pop_front() {
+            Some(rv) => rv,
+            None => return,
+        };
+        for op in ready_ops(&rv) {
+            apply_op(&self.nodes[i].durable, &op);
+            self.nodes[i].durable_ops.push(op);
+        }
+        if self.mon.is_some() {
+            self.with_mon(|m, s| m.on_fsync(s, i));
+        }
+        let n = &self.nodes[i];
+        if let Some((t, v, _)) = rv.hs {
             self.pt.fsync(n.id, t, v);
         }
+        if self.pt.enabled {
+            let first = n.durable.first_index().unwrap();
+            let last = n.durable.last_index().unwrap();
+            let ents = if last + 1 > first {
+                n.durable.entries(first, last + 1, None, raft::GetEntriesContext::empty(false)).unwrap()
+            } else {
+                vec![]
+            };
+            self.pt.durable(n.id, first, &ents);
+        }
+    }
+
+    /// A crash: the live store is rebuilt from the durable operations; written-but-unfsynced
+    /// Readies are lost.
+    pub(crate) fn lose_unsynced(&mut self, i: usize) {
+        let n = &mut self.nodes[i];
+        let fresh = MemStorage::new_with_conf_state(n.init_cs.clone());
+        for op in &n.durable_ops {
+            apply_op(&fresh, op);
+        }
+        n.store = fresh;
+        n.sstore = SimStorage::new(n.store.clone(), n.sim_snap);
+        n.unsynced.clear();
+        // the state machine cannot be ahead of what the durable log holds
+        let last = n.durable.last_index().unwrap();
+        if n.applied > last {
+            n.applied = last;
+        }
+        n.sstore.set_applied(n.applied);
     }
 
     /// One synchronous or asynchronous Ready round on node i.
     pub fn ready_round(&mut self, i: usize) {
+        self.ready_round_with(i, None)
+    }
+
+    /// One Ready round; `forced` fixes the persistence mode (0-4 synchronous advance, 5-6
+    /// advance_append, 7-9 asynchronous) instead of drawing it.
+    pub fn ready_round_with(&mut self, i: usize, forced: Option<u64>) {
         if self.nodes[i].driver.is_none() || self.nodes[i].driver.as_ref().unwrap().last_rd.is_some() {
             return;
         }
@@ -329,15 +647,19 @@ impl Sim {
             None => return,
         };
         let rv = o.ready.unwrap();
-        self.send(rv.messages.clone());
-        self.write_ready(i, &rv);
+        self.send(i, rv.messages.clone());
+        // the write is durable at once in the synchronous modes; asynchronous Readies are fsynced later
+        let mode = match forced {
+            Some(m) => m,
+            None => self.rng.below(10),
+        };
+        self.write_ready(i, &rv, mode < 7);
         for e in &rv.committed_entries {
             self.nodes[i].to_apply.push_back(e.clone());
         }
-        let mode = self.rng.below(10);
         if mode < 5 {
             // sync: handle committed entries, then advance (which reports applied itself)
-            self.send(rv.persisted_messages.clone());
+            self.send(i, rv.persisted_messages.clone());
             self.apply_entries(i, true, false);
             if self.nodes[i].driver.is_none() {
                 return;
@@ -347,7 +669,7 @@ impl Sim {
                 self.after_light(i, o);
             }
         } else if mode < 7 {
-            self.send(rv.persisted_messages.clone());
+            self.send(i, rv.persisted_messages.clone());
             if let Some(o) = self.call(i, Call::AdvanceAppend) {
                 self.after_light(i, o);
             }
@@ -364,12 +686,12 @@ impl Sim {
         }
     }
 
-    fn after_light(&mut self, i: usize, o: CallOutcome) {
+    pub(crate) fn after_light(&mut self, i: usize, o: CallOutcome) {
         if let Some(l) = o.light {
             if let Some(c) = l.commit_index() {
-                self.nodes[i].store.wl().mut_hard_state().commit = c;
+                self.store_op(i, StoreOp::Commit(c), true);
             }
-            self.send(l.messages().to_vec());
+            self.send(i, l.messages().to_vec());
             for e in l.committed_entries() {
                 self.nodes[i].to_apply.push_back(e.clone());
             }
@@ -389,34 +711,42 @@ impl Sim {
             let (n, m) = self.nodes[i].async_pending.pop_front().unwrap();
             num = n;
             msgs.extend(m);
+            self.fsync_one(i);
         }
         if self.call(i, Call::OnPersistReady(num)).is_some() {
-            self.send(msgs);
+            self.send(i, msgs);
         }
     }
 
-    fn deliver(&mut self) {
+    pub(crate) fn deliver(&mut self) {
         if self.net.is_empty() {
             return;
         }
         let k = self.rng.below(self.net.len().min(12) as u64) as usize;
         let m = if self.rng.chance(9, 10) { self.net.remove(k) } else { self.net[k].clone() };
+        // snapshots are always kept for a later stale re-delivery, other messages as a bounded sample
+        if self.archive.len() < 256 {
+            self.archive.push(m.clone());
+        } else if m.get_msg_type() == MessageType::MsgSnapshot || self.rng.chance(1, 4) {
+            let j = self.rng.below(256) as usize;
+            self.archive[j] = m.clone();
+        }
         if let Some(i) = self.idx_of(m.to) {
             self.call(i, Call::Step(m));
         }
     }
 
-    fn leader(&self) -> Option<usize> {
+    pub(crate) fn leader(&self) -> Option<usize> {
         self.nodes.iter().position(|n| n.driver.as_ref().map_or(false, |d| d.node.raft.state == StateRole::Leader))
     }
 
-    fn payload(&mut self) -> Vec<u8> {
+    pub(crate) fn payload(&mut self) -> Vec<u8> {
         let len = *self.rng.pick(&[0usize, 1, 3, 8, 20, 45]);
         self.next_payload += 1;
         (0..len).map(|k| ((self.next_payload as usize + k) % 251) as u8).collect()
     }
 
-    fn random_cc(&mut self) -> CcKind {
+    pub(crate) fn random_cc(&mut self) -> CcKind {
         let max_id = self.nodes.len() as u64 + 2;
         let n = 1 + self.rng.below(3);
         let changes: Vec<(u64, u64)> = (0..n).map(|_| (self.rng.below(3), self.rng.below(max_id + 1))).collect();
@@ -437,17 +767,197 @@ impl Sim {
         }
     }
 
-    fn compact(&mut self, i: usize) {
+    /// A hand-made message for node i (adversarial runs only): any non-local type, any sender,
+    /// term / index / commit values around the receiver's own.
+    pub(crate) fn adversarial_msg(&mut self, i: usize) -> Option<Message> {
+        let nn = self.nodes.len() as u64;
+        let (id, term, committed, last, first) = {
+            let d = self.nodes[i].driver.as_ref()?;
+            let r = &d.node.raft;
+            (r.id, r.term, r.raft_log.committed, r.raft_log.last_index(), r.raft_log.first_index())
+        };
+        use MessageType::*;
+        let ty = *self.rng.pick(&[MsgAppend, MsgAppend, MsgAppendResponse, MsgAppendResponse, MsgRequestVote, MsgRequestVoteResponse,
+            MsgSnapshot, MsgSnapshot, MsgHeartbeat, MsgHeartbeatResponse, MsgTimeoutNow, MsgReadIndex, MsgReadIndexResp,
+            MsgRequestPreVote, MsgRequestPreVoteResponse, MsgTransferLeader, MsgPropose]);
+        let around = |rng: &mut Rng, xs: &[u64]| -> u64 {
+            let b = *rng.pick(xs);
+            match rng.below(4) {
+                0 => b.saturating_sub(1),
+                1 => b + 1,
+                _ => b,
+            }
+        };
+        let mut m = Message::default();
+        m.set_msg_type(ty);
+        m.to = id;
+        m.from = 1 + self.rng.below(nn + 1);
+        m.term = if matches!(ty, MsgPropose | MsgReadIndex | MsgTransferLeader) && self.rng.chance(3, 4) { 0 } else { around(&mut self.rng, &[term, term, term + 1, 0]) };
+        m.log_term = self.rng.below(term + 2);
+        m.index = around(&mut self.rng, &[committed, last, first, 0, last + 2]);
+        m.commit = around(&mut self.rng, &[committed, last, 0, last + 3]);
+        m.commit_term = self.rng.below(term + 2);
+        m.reject = self.rng.chance(1, 3);
+        m.reject_hint = around(&mut self.rng, &[committed, last, 0]);
+        m.request_snapshot = if self.rng.chance(1, 5) { around(&mut self.rng, &[committed, last]) } else { 0 };
+        m.priority = self.rng.below(3) as i64 - 1;
+        if self.rng.chance(1, 3) {
+            m.context = vec![(self.next_payload % 250) as u8, 1, 2].into();
+        }
+        if matches!(ty, MsgAppend | MsgPropose | MsgReadIndex | MsgReadIndexResp) || self.rng.chance(1, 10) {
+            let k = self.rng.below(4);
+            let mut ents = vec![];
+            for j in 0..k {
+                let mut e = Entry::default();
+                e.index = if ty == MsgPropose { 0 } else { m.index + 1 + j };
+                e.term = if ty == MsgPropose { 0 } else { 1 + self.rng.below(m.term.max(1)) };
+                if self.rng.chance(1, 4) {
+                    let (ety, data) = match self.random_cc() {
+                        CcKind::V1(cc) => (EntryType::EntryConfChange, cc.write_to_bytes().unwrap()),
+                        CcKind::V2(cc) => (EntryType::EntryConfChangeV2, cc.write_to_bytes().unwrap()),
+                        CcKind::Raw(t, d) => (if t == 1 { EntryType::EntryConfChange } else { EntryType::EntryConfChangeV2 }, d),
+                    };
+                    e.set_entry_type(ety);
+                    e.data = data.into();
+                } else {
+                    e.data = self.payload().into();
+                }
+                ents.push(e);
+            }
+            m.set_entries(ents.into());
+        }
+        if ty == MsgSnapshot || self.rng.chance(1, 20) {
+            let mut sn = Snapshot::default();
+            let md = sn.mut_metadata();
+            md.index = around(&mut self.rng, &[committed, last, first, last + 2, 0]);
+            md.term = self.rng.below(term + 2);
+            let ids: Vec<u64> = (1..=nn + 1).collect();
+            let cs = md.mut_conf_state();
+            for x in &ids {
+                match self.rng.below(6) {
+                    0 | 1 | 2 => cs.voters.push(*x),
+                    3 => cs.learners.push(*x),
+                    _ => {}
+                }
+            }
+            if self.rng.chance(1, 4) {
+                for x in &ids {
+                    if self.rng.chance(1, 2) {
+                        cs.voters_outgoing.push(*x);
+                    }
+                }
+                for x in &ids {
+                    if self.rng.chance(1, 5) {
+                        cs.learners_next.push(*x);
+                    }
+                }
+                cs.auto_leave = self.rng.chance(1, 2);
+            }
+            m.set_snapshot(sn);
+        }
+        Some(m)
+    }
+
+    pub(crate) fn compact(&mut self, i: usize) {
         let n = &mut self.nodes[i];
         let first = n.store.first_index().unwrap();
         if n.applied > first {
             let to = first + 1 + self.rng.below(n.applied - first);
             // the snapshot point a leader would ship must be the compaction point's commit
-            let _ = catch(|| n.store.wl().compact(to));
+            let id = n.id;
+            // never compact beyond what is durably committed in the durable image
+            let dc = n.durable.initial_state().unwrap().hard_state.commit;
+            if to > dc {
+                return;
+            }
+            // MemStorage::compact: "the application's responsibility to not attempt to compact an index
+            // greater than RaftLog.applied" - the library's applied index, which lags the application's
+            // own until advance_apply / advance_apply_to
+            if let Some(d) = n.driver.as_ref() {
+                if to > d.node.raft.raft_log.applied {
+                    return;
+                }
+            }
+            let durable_too = to <= n.durable.last_index().unwrap() && to > n.durable.first_index().unwrap();
+            self.store_op(i, StoreOp::Compact(to), durable_too);
+            self.note(|| format!("{} compact store to {}", id, to));
         }
     }
 
+    /// Monitor-only event (flag `extra_steps`): offers RawNode::step a local message type or a
+    /// response from a peer that is not in the progress map.  Must be rejected, state unchanged.
+    fn bogus_step(&mut self) {
+        let nn = self.nodes.len();
+        let i = self.rng.below(nn as u64) as usize;
+        let term = self.nodes[i].driver.as_ref().map_or(0, |d| d.node.raft.term);
+        let mut m = Message::default();
+        let local = self.rng.chance(1, 2);
+        let ty = if local {
+            *self.rng.pick(&[MessageType::MsgHup, MessageType::MsgBeat, MessageType::MsgUnreachable, MessageType::MsgSnapStatus, MessageType::MsgCheckQuorum])
+        } else {
+            *self.rng.pick(&[MessageType::MsgAppendResponse, MessageType::MsgRequestVoteResponse, MessageType::MsgHeartbeatResponse, MessageType::MsgUnreachable, MessageType::MsgRequestPreVoteResponse])
+        };
+        m.set_msg_type(ty);
+        m.to = self.nodes[i].id;
+        m.from = if local { 1 + self.rng.below(nn as u64) } else { 90 + self.rng.below(5) };
+        m.term = match self.rng.below(3) {
+            0 => term,
+            1 => term + 1,
+            _ => 0,
+        };
+        m.index = self.rng.below(8);
+        m.reject = self.rng.chance(1, 2);
+        self.call(i, Call::Step(m));
+    }
+
     pub fn step_random(&mut self) {
+        if self.adversarial && self.rng.chance(1, 6) {
+            let nn = self.nodes.len() as u64;
+            let i = self.rng.below(nn) as usize;
+            match self.rng.below(6) {
+                0 => {
+                    // a membership change applied out of the blue (not from the log), on the leader mostly
+                    let t = self.leader().filter(|_| self.rng.chance(2, 3)).unwrap_or(i);
+                    let n = 1 + self.rng.below(2);
+                    let changes: Vec<(u64, u64)> = (0..n).map(|_| (self.rng.below(3), 1 + self.rng.below(nn + 1))).collect();
+                    let cc = cc_v2(self.rng.below(3), if self.rng.chance(1, 8) { &[] } else { &changes });
+                    if self.rng.chance(1, 3) {
+                        let peer = changes[0].1;
+                        self.call(t, Call::TransferLeader(peer));
+                    }
+                    self.call(t, Call::ApplyConfChange(cc));
+                }
+                1 | 2 => {
+                    // a transfer to a voter, then at once a change that demotes / removes / re-adds it
+                    if let Some(t) = self.leader() {
+                        let lid = self.nodes[t].id;
+                        let voters: Vec<u64> = self.nodes[t].driver.as_ref().map_or(vec![], |d| d.node.raft.prs().conf().voters().ids().iter().filter(|v| *v != lid).collect());
+                        if !voters.is_empty() {
+                            let peer = *self.rng.pick(&voters);
+                            self.call(t, Call::TransferLeader(peer));
+                            let ty = *self.rng.pick(&[2u64, 2, 1, 0]);
+                            let tr = *self.rng.pick(&[0u64, 0, 1, 2]);
+                            let cc = cc_v2(tr, &[(ty, peer)]);
+                            self.call(t, Call::ApplyConfChange(cc));
+                        }
+                    }
+                }
+                _ => {
+                    if let Some(m) = self.adversarial_msg(i) {
+                        self.call(i, Call::Step(m));
+                    }
+                }
+            }
+            return;
+        }
+        if self.focus != 0 && self.rng.chance(1, 4) {
+            self.focus_event();
+            return;
+        }
+        if self.extra_steps && self.rng.chance(1, 40) {
+            self.bogus_step();
+            return;
+        }
         let nn = self.nodes.len();
         let i = self.rng.below(nn as u64) as usize;
         let r = self.rng.below(1000);
@@ -455,7 +965,20 @@ impl Sim {
             0..=219 => {
                 self.call(i, Call::Tick);
             }
-            220..=519 => self.deliver(),
+            220..=231 => {
+                // a stale duplicate: some message delivered arbitrarily long ago arrives again
+                if self.archive.is_empty() {
+                    self.deliver();
+                } else {
+                    let snaps: Vec<usize> = (0..self.archive.len()).filter(|&j| self.archive[j].get_msg_type() == MessageType::MsgSnapshot).collect();
+                    let j = if !snaps.is_empty() && self.rng.chance(1, 2) { *self.rng.pick(&snaps) } else { self.rng.below(self.archive.len() as u64) as usize };
+                    let m = self.archive[j].clone();
+                    if let Some(i) = self.idx_of(m.to) {
+                        self.call(i, Call::Step(m));
+                    }
+                }
+            }
+            232..=519 => self.deliver(),
             520..=719 => self.ready_round(i),
             720..=769 => {
                 self.persist_async(i);
@@ -463,7 +986,35 @@ impl Sim {
                     self.apply_entries(i, false, true);
                 }
             }
-            770..=839 => {
+            770..=779 => {
+                // a batched proposal (as an application may forward): several entries in one
+                // MsgPropose, membership changes anywhere in the batch
+                let t = self.leader().filter(|_| !self.rng.chance(1, 5)).unwrap_or(i);
+                let k = 2 + self.rng.below(3);
+                let mut ents = vec![];
+                for _ in 0..k {
+                    let mut e = Entry::default();
+                    if self.rng.chance(2, 5) && !self.fixed_conf {
+                        let (ty, data) = match self.random_cc() {
+                            CcKind::V1(cc) => (EntryType::EntryConfChange, cc.write_to_bytes().unwrap()),
+                            CcKind::V2(cc) => (EntryType::EntryConfChangeV2, cc.write_to_bytes().unwrap()),
+                            CcKind::Raw(t, d) => (if t == 1 { EntryType::EntryConfChange } else { EntryType::EntryConfChangeV2 }, d),
+                        };
+                        e.set_entry_type(ty);
+                        e.data = data.into();
+                    } else {
+                        e.data = self.payload().into();
+                    }
+                    ents.push(e);
+                }
+                let mut m = Message::default();
+                m.set_msg_type(MessageType::MsgPropose);
+                m.from = 1 + self.rng.below(nn as u64);
+                m.to = self.nodes[t].id;
+                m.set_entries(ents.into());
+                self.call(t, Call::Step(m));
+            }
+            780..=839 => {
                 let t = self.leader().filter(|_| !self.rng.chance(1, 5)).unwrap_or(i);
                 let p = self.payload();
                 let ctx = if self.rng.chance(1, 5) { vec![7] } else { vec![] };
@@ -472,7 +1023,12 @@ impl Sim {
             840..=864 => {
                 let t = self.leader().filter(|_| !self.rng.chance(1, 4)).unwrap_or(i);
                 let cc = self.random_cc();
-                self.call(t, Call::ProposeConfChange(vec![], cc));
+                if self.fixed_conf {
+                    let p = self.payload();
+                    self.call(t, Call::Propose(vec![], p));
+                } else {
+                    self.call(t, Call::ProposeConfChange(vec![], cc));
+                }
             }
             865..=884 => {
                 let ctx = vec![(self.next_payload % 250) as u8, 1, 2];
@@ -484,13 +1040,17 @@ impl Sim {
                 self.call(i, Call::TransferLeader(to));
             }
             900..=909 => {
-                self.call(i, Call::Campaign);
+                let skip = self.voter_campaign_only && self.nodes[i].driver.as_ref().map_or(false, |d| !d.node.raft.promotable());
+                if !skip {
+                    self.call(i, Call::Campaign);
+                }
             }
             910..=929 => self.compact(i),
             930..=939 => {
                 if !self.net.is_empty() {
                     let k = self.rng.below(self.net.len() as u64) as usize;
-                    self.net.remove(k);
+                    let m = self.net.remove(k);
+                    self.note(|| format!("net drop {:?} {}->{}", m.get_msg_type(), m.from, m.to));
                 }
             }
             940..=949 => {
@@ -513,6 +1073,10 @@ impl Sim {
                     self.pt.crash(nid);
                     self.nodes[i].async_pending.clear();
                     self.nodes[i].to_apply.clear();
+                    self.lose_unsynced(i);
+                    let id = self.nodes[i].id;
+                    self.note(|| format!("{} crash", id));
+                    self.with_mon(|m, s| m.on_crash(s, i));
                 }
             }
             970..=984 => {
@@ -533,6 +1097,120 @@ impl Sim {
                     _ => Call::MaybeFreeInflight,
                 };
                 self.call(i, c);
+            }
+        }
+    }
+
+    /// One event of the run's profile (see `focus`): the rare operations of one area, aimed at the
+    /// leader where that is where they matter.
+    fn focus_event(&mut self) {
+        let nn = self.nodes.len() as u64;
+        let any = self.rng.below(nn) as usize;
+        let l = self.leader().unwrap_or(any);
+        let peer = 1 + self.rng.below(nn + 1);
+        match self.focus {
+            1 => match self.rng.below(8) {
+                0 | 1 => {
+                    let cap = self.rng.below(4);
+                    self.call(l, Call::AdjustInflight(peer, cap));
+                }
+                2 => {
+                    self.call(l, Call::ReportUnreachable(peer));
+                }
+                3 => {
+                    let ok = self.rng.chance(1, 2);
+                    self.call(l, Call::ReportSnapshot(peer, ok));
+                }
+                4 => {
+                    let b = self.rng.chance(1, 2);
+                    self.call(l, Call::SetBatchAppend(b));
+                }
+                5 => {
+                    self.call(l, Call::MaybeFreeInflight);
+                }
+                _ => {
+                    for _ in 0..(1 + self.rng.below(4)) {
+                        let p = self.payload();
+                        self.call(l, Call::Propose(vec![], p));
+                    }
+                }
+            },
+            2 => match self.rng.below(6) {
+                0 | 1 => {
+                    let t = if self.rng.chance(3, 4) { l } else { any };
+                    self.call(t, Call::TransferLeader(peer));
+                }
+                2 | 3 if !self.fixed_conf => {
+                    // demote / promote / remove one concrete node, simple or joint
+                    let ty = self.rng.below(3);
+                    let cc = if self.rng.chance(1, 2) {
+                        let mut c = ConfChange::default();
+                        c.set_change_type(match ty {
+                            0 => ConfChangeType::AddNode,
+                            1 => ConfChangeType::RemoveNode,
+                            _ => ConfChangeType::AddLearnerNode,
+                        });
+                        c.node_id = peer;
+                        CcKind::V1(c)
+                    } else {
+                        CcKind::V2(cc_v2(self.rng.below(3), &[(ty, peer)]))
+                    };
+                    self.call(l, Call::ProposeConfChange(vec![], cc));
+                }
+                4 => {
+                    // lose a message (keeps transfers and changes pending)
+                    if !self.net.is_empty() {
+                        let k = self.rng.below(self.net.len() as u64) as usize;
+                        self.net.remove(k);
+                    }
+                }
+                _ if !self.fixed_conf => {
+                    // a membership change touching a node, then at once a transfer to that node:
+                    // the change is applied while the transfer is pending
+                    let ty = *self.rng.pick(&[1u64, 2, 2]);
+                    let cc = if self.rng.chance(1, 2) {
+                        let mut c = ConfChange::default();
+                        c.set_change_type(if ty == 1 { ConfChangeType::RemoveNode } else { ConfChangeType::AddLearnerNode });
+                        c.node_id = peer;
+                        CcKind::V1(c)
+                    } else {
+                        CcKind::V2(cc_v2(self.rng.below(3), &[(ty, peer)]))
+                    };
+                    self.call(l, Call::ProposeConfChange(vec![], cc));
+                    self.call(l, Call::TransferLeader(peer));
+                }
+                _ => {
+                    self.call(l, Call::Tick);
+                }
+            },
+            3 => match self.rng.below(6) {
+                0 | 1 => self.compact(any),
+                2 => {
+                    self.call(any, Call::RequestSnapshot);
+                }
+                3 => {
+                    let snaps: Vec<usize> = (0..self.archive.len()).filter(|&j| self.archive[j].get_msg_type() == MessageType::MsgSnapshot).collect();
+                    if !snaps.is_empty() {
+                        let m = self.archive[*self.rng.pick(&snaps)].clone();
+                        if let Some(i) = self.idx_of(m.to) {
+                            self.call(i, Call::Step(m));
+                        }
+                    }
+                }
+                4 => {
+                    let ok = self.rng.chance(2, 3);
+                    self.call(l, Call::ReportSnapshot(peer, ok));
+                }
+                _ => {
+                    let p = self.payload();
+                    self.call(l, Call::Propose(vec![], p));
+                }
+            },
+            _ => {
+                let ctx = if self.rng.chance(1, 6) { vec![1, 1, 2] } else { vec![(self.next_payload % 250) as u8, 1, 2] };
+                self.next_payload += 1;
+                let t = if self.rng.chance(1, 2) { l } else { any };
+                self.call(t, Call::ReadIndex(ctx));
             }
         }
     }
@@ -569,7 +1247,7 @@ impl Sim {
     pub fn run(&mut self, steps: usize) {
         self.boot();
         let mut done = 0;
-        while done < steps {
+        while done < steps && !self.halted {
             if self.rng.chance(1, 3) {
                 let r = 2 + self.rng.below(12) as usize;
                 self.healthy_phase(r);
